@@ -501,10 +501,15 @@ static int vr_process(rate_t * p, int olen0)
             fifo_trim_to(&s->fifo, 2 * HALF_FIR_LEN_2 + idone + (POLY_FIR_LEN_D >> 1));
             do_input_stage(p, p->current.stage_num, 1, p->current.stage_num);
           }
-          if (p->stage_inc && p->current.stage_num > 0)
-            /* Whole samples of the new coarsest stage only, so that the streams of
-             * a later cross-fade in this call run out of input at the same point: */
+          if (p->stage_inc && p->current.stage_num > 0) {
+            /* No more than the (restarted) new coarsest stage can supply, and whole
+             * samples of it only, so that the streams of a later cross-fade in this
+             * call run out of input at the same point: */
+            stage_t * s = &p->stages[p->current.stage_num];
+            int avail = fifo_occupancy(&s->fifo) - 2 * HALF_FIR_LEN_2 - (POLY_FIR_LEN_D >> 1);
+            occupancy0 = min(occupancy0, shiftl(max(0, avail), p->current.stage_num));
             occupancy0 &= ~((1 << p->current.stage_num) - 1);
+          }
           enter_new_stage(p, occupancy0);
           shift = -stage_dif;
 /* Left-shift the unsigned representation: step_step may be negative. */
